@@ -1,6 +1,7 @@
 package main
 
 import (
+	"context"
 	"fmt"
 	"strings"
 
@@ -449,7 +450,19 @@ func runC12(c *fw.Ctx) {
 			st.FailAt = k
 			st.FailShape = k + i
 			st.FailMsg = fmt.Sprintf("injected-store-failure-%s-%d", strings.ReplaceAll(id, "/", "-"), k)
-			o := real.Run(po.Result, cs.Vars, real.FlagsOf(cs), st)
+			if (k+i)%3 == 0 {
+				// what real stores say: SQL fragments, encoded URLs
+				st.FailMsg += " (LIKE 'users:%' 100%s %d%% postgres://u:p%40host)"
+			}
+			ctx := context.Background()
+			if (k+i)%4 == 1 {
+				// the caller's context is already done; the store fails for a reason of its own
+				cctx, cancel := context.WithCancel(ctx)
+				cancel()
+				ctx = cctx
+				c.Count("store_faults_under_a_cancelled_context", 1)
+			}
+			o := real.RunCtx(ctx, po.Result, cs.Vars, real.FlagsOf(cs), st)
 			c.Eval()
 			input := func() any {
 				d := cs.Describe()
